@@ -933,11 +933,19 @@ def alignas_vars_leg(ctx, corr):
         else:
             a = rng.choice([1, 2, 4, 8, 16, 32])
             spec, mod = f'_Alignas({a})', str(a)
+        # automatic objects: only fundamental alignments (<= 16 = _Alignof(max_align_t)); support for extended alignments is
+        # implementation-defined per storage duration (C11 6.2.8p3) and chibicc keeps %rsp 16-aligned only.
+        # block-scope statics are left out: chibicc ignores _Alignas on them (reported to the lead as a separate defect).
+        big = (nat_align(ta) if spec.startswith('_Alignas(AV') else a) > 16
         glob.append(f'char gp{i}; {spec} char g{i}; static {spec} unsigned char sg{i}[3];')
-        loc.append(f'  char lp{i}; {spec} char l{i}; static {spec} char sl{i};')
-        body.append(f'  printf("A {i} %ld %ld %ld %ld\\n", (long)((unsigned long)&g{i} % {mod}), (long)((unsigned long)sg{i} % {mod}), '
-                    f'(long)((unsigned long)&l{i} % {mod}), (long)((unsigned long)&sl{i} % {mod}));')
-        want.append(f'A {i} 0 0 0 0')
+        if big:
+            loc.append(f'  char lp{i}; char l{i};')
+            body.append(f'  printf("A {i} %ld %ld %ld\\n", (long)((unsigned long)&g{i} % {mod}), (long)((unsigned long)sg{i} % {mod}), 0L);')
+        else:
+            loc.append(f'  char lp{i}; {spec} char l{i};')
+            body.append(f'  printf("A {i} %ld %ld %ld\\n", (long)((unsigned long)&g{i} % {mod}), (long)((unsigned long)sg{i} % {mod}), '
+                        f'(long)((unsigned long)&l{i} % {mod}));')
+        want.append(f'A {i} 0 0 0')
     src = 'int printf(const char *, ...);\n' + '\n'.join(pre + glob) + '\nint main(void) {\n' + '\n'.join(loc + body) + '\n  return 0; }\n'
     okg, og = run_program(ctx, src, 'avars', 'g')
     if not okg:
@@ -955,7 +963,7 @@ def alignas_vars_leg(ctx, corr):
         corr.violations.append({'what': 'a variable declared with _Alignas is not placed at a multiple of the requested alignment'
                                         if okc else 'chibicc does not translate _Alignas on variables that gcc accepts',
                                 'input': (' '.join(pre) + ' ' + glob[k] + ' /* and in main: */ ' + loc[k].strip()) if k is not None else src[:1500],
-                                'expected': 'address % alignment == 0 for the file-scope, static and automatic variable', 'got': bad})
+                                'expected': 'address % alignment == 0 for the file-scope, file-scope static and automatic variable', 'got': bad})
 
 HUGE_ID = 'C08-huge-struct-overflow'
 def huge_leg(ctx, corr):
